@@ -97,3 +97,31 @@ func WaitNoGoroutineIn(bound time.Duration, subs ...string) []Goroutine {
 		}
 	}
 }
+
+// GoID returns the id of the calling goroutine (parsed from its stack header; for harness use only).
+func GoID() string {
+	var buf [64]byte
+	n := runtime.Stack(buf[:], false)
+	f := strings.Fields(string(buf[:n]))
+	if len(f) >= 2 {
+		return f[1]
+	}
+	return "?"
+}
+
+// ByID finds a goroutine in a dump.
+func ByID(gs []Goroutine, id string) *Goroutine {
+	for i := range gs {
+		if gs[i].ID == id {
+			return &gs[i]
+		}
+	}
+	return nil
+}
+
+// Blocked reports whether the goroutine sits in a synchronisation wait (mutex, rwmutex, semaphore,
+// channel, select, cond) – as opposed to running / runnable / syscall / IO wait / sleep.
+func (g *Goroutine) Blocked() bool {
+	s := g.State
+	return strings.HasPrefix(s, "sync.") || s == "semacquire" || strings.HasPrefix(s, "chan ") || s == "select" || s == "select (no cases)"
+}
